@@ -104,6 +104,10 @@ def gen_recipes(rng, tier):
         out.append({'kind': 'cells', 'op': op, 'l': l, 'r': r})
     for l, r in pairs[n_direct:n_direct + (80 if tier == 'quick' else 800)] or pairs[:80]:
         out.append({'kind': 'override', 'op': rng.choice(OPS)[0], 'l': l, 'r': r})
+    # every pair of date / date-time values as OVERRIDES (same day with different times included): what set_cells does to such values shows here
+    dvals = [p for p in P if isinstance(p, dict) and ('dt' in p or 'd' in p)]
+    for l, r in itertools.product(dvals, dvals):
+        out.append({'kind': 'override', 'op': rng.choice(OPS)[0], 'l': l, 'r': r})
     lits = [(p, literal_of(C.jdec(p))) for p in P]
     lits = [(p, s) for p, s in lits if s is not None]
     lp = list(itertools.product(lits, lits))
